@@ -18,11 +18,11 @@ from sim import simplify
 
 PROPS = {
     # prop: (quick runs, thorough runs, quick budget s, thorough budget s)
-    'C09': (4000, 150000, 100, 1500),
-    'C11': (6000, 250000, 100, 1500),
-    'C12': (3000, 120000, 100, 1500),
-    'C14': (2500, 100000, 100, 1500),
-    'C16': (3500, 120000, 100, 1500),
+    'C09': (3000, 150000, 90, 1500),
+    'C11': (5000, 250000, 90, 1500),
+    'C12': (2500, 120000, 90, 1500),
+    'C14': (2000, 100000, 90, 1500),
+    'C16': (3000, 120000, 90, 1500),
 }
 
 LEVEL = 'exploration'
